@@ -691,7 +691,8 @@ func evalTcb(t *Verdict, m map[string]any, q *Quote, sgx *SgxValues) {
 	}
 	if q.TeeTcbSvn[1] != 0 {
 		ver := q.TeeTcbSvn[1]
-		ids := map[string]bool{fmt.Sprintf("TDX_%02x", ver): true, fmt.Sprintf("TDX_%02X", ver): true, fmt.Sprintf("TDX_%02d", ver): true}
+		// Intel's algorithm names the identity "TDX_" + two hex digits of the version byte (case is not judged here)
+		ids := map[string]bool{fmt.Sprintf("TDX_%02x", ver): true, fmt.Sprintf("TDX_%02X", ver): true}
 		found, good := false, false
 		for _, id := range arr(m, "tdxModuleIdentities") {
 			im, _ := id.(map[string]any)
